@@ -231,6 +231,11 @@ fn node_addr(idx: u64) -> SocketAddr {
     SocketAddr::new(host(idx), 9000 + idx as u16)
 }
 
+/// The IPv6 socket a dual-stack record of node `idx` advertises next to its real IPv4 socket.
+fn alt6(idx: u64) -> SocketAddr {
+    SocketAddr::new(Ipv6Addr::new(0xfd00, 0, 0, 0, 0, 0xa, 0, idx as u16).into(), 9500 + idx as u16)
+}
+
 /// (ip4, ip6) arguments of `make_enr` for a record advertising `a`.
 fn adv_of(a: Option<SocketAddr>) -> (Option<(Ipv4Addr, u16)>, Option<(Ipv6Addr, u16)>) {
     match a {
@@ -955,7 +960,12 @@ impl Runner for HandlerRunner {
                         3 => Some(SocketAddr::new(other_ip, addr.port())),
                         _ => Some(addr),
                     };
-                    let (a4, a6) = adv_of(adv);
+                    let (a4, mut a6) = adv_of(adv);
+                    // mode 4 (IPv4 worlds): the record also advertises an IPv6 socket
+                    let dual = mode == 4 && !v6;
+                    if dual {
+                        if let SocketAddr::V6(s6) = alt6(idx) { a6 = Some((*s6.ip(), s6.port())); }
+                    }
                     let enr = make_enr(&key, 1, a4, a6, 0);
                     self.ids.insert(enr.node_id(), idx);
                     // address registry: index == node idx
@@ -992,7 +1002,9 @@ impl Runner for HandlerRunner {
                         Some(a) => self.addr_idx(a).split(':').nth(1).unwrap().to_string(),
                         None => "-".to_string(),
                     };
-                    let (u4, u6) = if v6 { ("-".to_string(), un) } else { (un, "-".to_string()) };
+                    let (u4, u6) = if v6 { ("-".to_string(), un) } else if dual {
+                        (un, self.addr_idx(alt6(idx)).split(':').nth(1).unwrap().to_string())
+                    } else { (un, "-".to_string()) };
                     ops.push(format!(
                         "hnew {} 1 {} {} {} {} 2 {}:{} {} {}",
                         idx, self.retries, self.timeout_ms, ttl_ms, cap, if v6 { 6 } else { 4 }, idx, u4, u6
@@ -1203,6 +1215,9 @@ impl HandlerRunner {
                 let src = match rest.first() {
                     // `20`: another port on the host the datagram originally came from
                     Some(&"20") if (1..=3).contains(&d.from_idx) => node_addr(20 + d.from_idx),
+                    // `30`: the IPv6 socket the original sender's dual-stack record advertises
+                    Some(&"30") if (1..=3).contains(&d.from_idx) => alt6(d.from_idx),
+                    Some(a) if a.parse::<u64>().map(|v| (31..=39).contains(&v)).unwrap_or(false) => alt6(a.parse::<u64>().unwrap() - 30),
                     Some(a) => node_addr(a.parse().unwrap_or(9)),
                     None => d.src,
                 };
@@ -1506,11 +1521,15 @@ pub fn gen_case(rng: &mut Rng, tier: &str, profile: &str, stats: &mut Stats) -> 
     let c15 = profile == "C15";
     // C15: the session timeout (300 ms, real time) is deliberately shorter than the request timeout
     let timeout = if c15 { 1000 } else { 400 };
+    let dual_redirect = (profile == "C02" || profile == "C01" || profile == "C03") && rng.chance(1, 6);
     if c15 {
         // short real-time session timeout, small cache
         ops.push(format!("hworld {} {} {} {} 300", n, retries, timeout, rng.range(1, 3)));
+    } else if dual_redirect {
+        // every record advertises an IPv6 socket next to the real IPv4 one
+        ops.push(format!("hworld {} {} {} 1000 86400000 {}", n, retries, timeout, "4".repeat(n as usize)));
     } else if profile == "C12" || rng.chance(1, 4) {
-        let modes: String = (0..n).map(|_| match rng.below(6) { 0 => '1', 1 => '2', 2 => '3', _ => '0' }).collect();
+        let modes: String = (0..n).map(|_| match rng.below(7) { 0 => '1', 1 => '2', 2 => '3', 3 => '4', _ => '0' }).collect();
         ops.push(format!("hworld {} {} {} 1000 86400000 {}{}", n, retries, timeout, modes, if rng.chance(1, 4) { " v6" } else { "" }));
     } else {
         ops.push(format!("hworld {} {} {} 1000 86400000{}", n, retries, timeout, if rng.chance(1, 6) { " v6" } else { "" }));
@@ -1585,6 +1604,21 @@ pub fn gen_case(rng: &mut Rng, tier: &str, profile: &str, stats: &mut Stats) -> 
         ops.push("hdel skip".into());
         ops.push(format!("hresp {} next auto", y));
         emitted += 5;
+    }
+    if dual_redirect {
+        // directed prefix: the handshake answering a challenge arrives from the other socket the
+        // sender's record advertises (nobody was challenged there); the original is lost
+        stats.bump("gen.cases.directed-handshake-from-advertised-other-family");
+        let x = rng.range(1, n);
+        let y = other(rng, x);
+        ops.push(format!("hreq {} {} enr {} {}", x, y, rid, rng.range(1, 4))); rid += 1;
+        ops.push("hdel next".into());
+        ops.push(format!("hwru {} next {}", y, if rng.chance(2, 3) { "known" } else { "none" }));
+        ops.push("hdel next".into());
+        ops.push("hdel next 30".into());
+        ops.push(format!("hresp {} next auto", y));
+        ops.push("hdel next".into());
+        emitted += 4;
     }
     if (profile == "C03" && rng.chance(1, 4)) || rng.chance(1, 16) {
         // directed prefix: a request has done its handshake and is unanswered; the session is
@@ -1697,7 +1731,7 @@ pub fn gen_case(rng: &mut Rng, tier: &str, profile: &str, stats: &mut Stats) -> 
             14..=55 => {
                 // (in adversarial cases an in-flight datagram now and then arrives from another port of
                 // its sender's host instead: the original never arrives)
-                if adversarial && rng.chance(1, 25) { ops.push("hdel next 20".into()); } else { ops.push("hdel next".into()); }
+                if adversarial && rng.chance(1, 25) { ops.push(format!("hdel next {}", if rng.chance(1, 3) { 30 } else { 20 })); } else { ops.push("hdel next".into()); }
                 emitted += 1;
             }
             56..=58 => {
